@@ -360,8 +360,20 @@ func (r *rw) stmt(s ast.Stmt) ast.Stmt {
 		}
 		r.children(n)
 		return nil
-	case *ast.GoStmt:
+	case *ast.DeferStmt:
+		// DeferStmt.Call is a *ast.CallExpr, not an ast.Expr slot: rewrite it here
+		isClose := r.isBuiltin(n.Call.Fun, "close") && len(n.Call.Args) == 1
 		r.children(n)
+		if isClose {
+			n.Call = r.sched("Close", n.Call.Args[0])
+		}
+		return nil
+	case *ast.GoStmt:
+		isClose := r.isBuiltin(n.Call.Fun, "close") && len(n.Call.Args) == 1
+		r.children(n)
+		if isClose {
+			n.Call = r.sched("Close", n.Call.Args[0])
+		}
 		return r.goStmt(n)
 	case *ast.RangeStmt:
 		t := r.info.TypeOf(n.X)
@@ -483,6 +495,13 @@ func (r *rw) selectStmt(n *ast.SelectStmt, label *ast.Ident) ast.Stmt {
 	hd := "false"
 	if hasDefault {
 		hd = "true"
+	} else {
+		// keep the statement terminating where the select was (a select whose
+		// clauses all return is a terminating statement; a switch needs a default)
+		clauses = append(clauses, &ast.CaseClause{List: nil, Body: []ast.Stmt{
+			&ast.ExprStmt{X: r.sched("Unreachable")},
+			&ast.ExprStmt{X: &ast.CallExpr{Fun: ast.NewIdent("panic"), Args: []ast.Expr{&ast.BasicLit{Kind: token.STRING, Value: strconv.Quote("vsched: select returned no clause")}}}},
+		}})
 	}
 	args := append([]ast.Expr{ast.NewIdent(hd)}, caseVars...)
 	var sw ast.Stmt = &ast.SwitchStmt{Tag: r.sched("Select", args...), Body: &ast.BlockStmt{List: clauses}}
